@@ -89,6 +89,7 @@ var synthNil bool
 
 // synthSelf: an argument of the receiver's own type is the receiver itself (m.PutAll(m)).
 var synthSelf bool
+var synthUncomparable bool // tEmptyIf arguments are slices (no == for their dynamic type)
 
 // synth builds an argument of type t. keyPool bounds the key space.
 func synth(t reflect.Type, r *vlib.Rand, keyPool int, recv reflect.Value, depth int) reflect.Value {
@@ -98,6 +99,11 @@ func synth(t reflect.Type, r *vlib.Rand, keyPool int, recv reflect.Value, depth 
 		return reflect.ValueOf(&lk{k}).Convert(t)
 	case t == tEmptyIf && synthNil:
 		return reflect.Zero(t)
+	case t == tEmptyIf && synthUncomparable:
+		// a value whose dynamic type does not support == (comparing two of them panics at run
+		// time inside whatever method compares stored values)
+		v := interface{}([]int{k})
+		return reflect.ValueOf(&v).Elem()
 	case t == tEmptyIf:
 		v := fmt.Sprintf("v%d", atomic.AddInt64(&uid, 1))
 		return reflect.ValueOf(&v).Elem().Convert(t)
@@ -264,6 +270,18 @@ func selfDeadlockProbe(c *vlib.Ctx) {
 		}
 		typ := reflect.TypeOf(ct.mk())
 		variants := []string{"populated", "empty", "nil-args", "self-arg"}
+		for mi := 0; mi < typ.NumMethod(); mi++ {
+			mt := typ.Method(mi).Type
+			for a := 1; a < mt.NumIn(); a++ {
+				if mt.In(a) == tEmptyIf {
+					// stored values and arguments of a dynamic type that cannot be compared with ==:
+					// a method that panics on them must still release the structure's lock
+					variants = append(variants, "uncomparable-values")
+					mi = typ.NumMethod()
+					break
+				}
+			}
+		}
 		if _, ok := typ.MethodByName("SetMax"); ok {
 			variants = append(variants, "bounded-full")
 		}
@@ -288,8 +306,9 @@ func selfDeadlockProbe(c *vlib.Ctx) {
 				c.Journal(id, "selfdeadlock")
 				r := c.Rand(id)
 				inst := reflect.ValueOf(ct.mk())
+				synthUncomparable = variant == "uncomparable-values"
 				switch variant {
-				case "populated", "self-arg":
+				case "populated", "self-arg", "uncomparable-values":
 					populate(inst, r, 4)
 				case "bounded-full":
 					// bound the structure to what it holds, so that every insert path has to evict
@@ -351,6 +370,7 @@ func selfDeadlockProbe(c *vlib.Ctx) {
 				c.DistinctStr(id)
 				synthNil = false
 				synthSelf = false
+				synthUncomparable = false
 				switch verdict {
 				case "returned":
 					if pan != nil {
